@@ -82,6 +82,39 @@ def drive_option(item):
     return {"id": rid, "scn": dict(scn, variant=variant), "obs": obs}
 
 
+KNOWN_VAL = {"queue": "q1", "cores": 4, "memory": "8g", "walltime": "02:00:00"}
+
+
+def drive_twoopts(item):
+    """A known option at one level and a scheduler-flavoured, possibly unknown one at another: whatever the
+    back end makes of the second, no directive may be given twice."""
+    rid, scn, variant = item
+    sb = cli_defs.sandbox()
+    sb.reset()
+    other_val = {"partition": "short", "ntasks": 2, "cpus_per_task": 2, "mem": "1g", "time": "00:10:00", "nodes": 1, "q": "short", "n": 2, "W": "10", "M": "1g"}[scn["other"]]
+    known_kw = "%s=%r" % (scn["known"], KNOWN_VAL[scn["known"]])
+    other = "%r: %r" % (scn["other"], other_val)
+    wf_kw = "defaults={%s}" % other if scn["otherat"] == "wfdef" else ""
+    topt = "{%s}" % other if scn["otherat"] == "tmpl" else "{}"
+    arg_kw = ", %s" % known_kw + (", %s=%r" % (scn["other"], other_val) if scn["otherat"] == "arg" else "")
+    lines = ["from gwf import Workflow, AnonymousTarget", "gwf = Workflow(%s)" % wf_kw,
+             "def tmpl(x):", "    return AnonymousTarget(inputs=[], outputs=['o_' + x], options=%s, spec='echo hi')" % topt]
+    if scn["mode"] == "target":
+        lines.append("gwf.target('t', inputs=[], outputs=['o']%s) << 'echo hi'" % arg_kw)
+    else:
+        lines.append("gwf.target_from_template('t', tmpl('a')%s)" % arg_kw)
+    sb.write("workflow.py", "\n".join(lines) + "\n")
+    r, script = submitted_script(sb, scn["backend"])
+    flags = []
+    if script is not None:
+        for ln in script.split("\ncd ")[0].splitlines():
+            m = re.match(r"^#(?:SBATCH|\$|BSUB) (--?[\w-]+)(?:[ =](\w+)=)?", ln)
+            if m:
+                flags.append(m.group(1) + (" " + m.group(2) if m.group(1) == "-l" and m.group(2) else ""))
+    dup = sorted({f for f in flags if flags.count(f) > 1})
+    return {"id": rid, "scn": dict(scn, variant=variant), "obs": {"exit": r.exit_code if r.exc is None and script is not None else -1, "dupflags": dup, "flags": flags}}
+
+
 def drive_sgemem(item):
     rid, scn, variant = item
     sb = cli_defs.sandbox()
@@ -235,7 +268,7 @@ def drive_logclean(item):
     return {"id": rid, "scn": dict(scn, variant=variant), "obs": {"exit": r.exit_code if r.exc is None else -1, "after": sorted(left)}}
 
 
-DRIVERS = {"option": drive_option, "sgemem": drive_sgemem, "script": drive_script, "logclean": drive_logclean}
+DRIVERS = {"twoopts": drive_twoopts, "option": drive_option, "sgemem": drive_sgemem, "script": drive_script, "logclean": drive_logclean}
 
 
 def drive(item):
